@@ -55,6 +55,13 @@ package payload
 //@   on return assert remaining-parts-keep-their-order: index >= 0 ==> forall(k, 0, index, bin.parts[k] == old(bin.parts[k])) && forall(k, index, len(bin.parts), bin.parts[k] == old(bin.parts[k+1]))
 //@   on return assert absent-is-noop: index < 0 ==> len(bin.parts) == old(len(bin.parts)) && bin.bytes == old(bin.bytes)
 
+// what a payload reports as its parts is what it holds now (the tracker sums them, the send loop
+// counts them)
+//@ func (*Bin).GetParts
+//@   on return assert parts-are-the-current-parts: len(r0) == len(bin.parts) && forall(k, 0, len(bin.parts), as(r0[k], *part) == bin.parts[k])
+//@   loop 0 invariant -1 <= rangeindex && rangeindex < len(bin.parts) && len(parts) == len(bin.parts) && forall(k, 0, rangeindex+1, as(parts[k], *part) == bin.parts[k]) && forall(k, 0, len(bin.parts), bin.parts[k] == entry(bin.parts[k]))
+//@   modifies everything
+
 // ---------------------------------------------------------------- wire format: header and framing (C13)
 
 //@ func (*part).GetRenamed inline
